@@ -33,7 +33,7 @@ RELATIONS = ['far', 'far', 'far', 'touch-after', 'touch-before', 'far', 'touch-a
 
 @st.composite
 def _cases(draw, tier):
-    cfg = draw(G.layout_isa(zones=True, blocks=False))
+    cfg = draw(G.layout_isa(zones=True, blocks=False, address_sizes=(8, 12, 16, 16, 16, 24, 32, 10, 18, 56, 64)))
     isa = R.Isa(cfg)
     lo, hi = G.window_of(isa)
     if hi - lo < 600:
@@ -170,7 +170,9 @@ def execute(case, ctx):
     nobin = case.get('mode') == 'no-binary'
     if nobin:
         # overlap is an error whether or not an image is asked for
-        argv = ['compile', '-c', fname, '-n', '-p', '-t', 'intel_hex', '--pretty-print-output', 'pp.txt', 'main.asm']
+        # (Intel HEX has 32-bit addresses: wider address spaces get the listing instead)
+        fmt = 'intel_hex' if cfg['general']['address_size'] <= 32 else 'listing'
+        argv = ['compile', '-c', fname, '-n', '-p', '-t', fmt, '--pretty-print-output', 'pp.txt', 'main.asm']
     res = runner.run_forked(argv, files)
     detail = {'source': files['main.asm'], 'general': cfg['general'], 'predefined': cfg.get('predefined'), 'argv': argv,
               'relations': case['relations'], 'model': verdict if verdict == 'accepted' else 'rejected: ' + lay,
